@@ -30,6 +30,7 @@ type Harness struct {
 	Solver   string // primary solver for this harness ("" = default)
 	ValSet   bool   // validation compares the set of assertion labels, not their multiset: how many records the harness loops over natively depends on the runtime scheduler
 	OrderDep bool   // a counterexample may hinge on the order in which the (unsteerable) native scheduler runs handler goroutines: reported even if the native run does not reproduce it; unlike Sched the harness is still validated
+	Direct   bool   // the harness starts from a pre-state built directly in the heap (state.vBuild): if the representation self-test (a violation labelled "repr:...") fails on this tree, its violations are not reported and the check is BROKEN (exit 2)
 	Sched    bool   // the harness explores goroutine schedules: a counterexample that the (unsteerable) native scheduler does not reproduce is still reported
 }
 
@@ -190,6 +191,19 @@ func (r *Runner) Run() int {
 			fmt.Printf("INCONCLUSIVE property=%s %s\n", c.ID, msg)
 		}
 	}
+	// the representation self-test of the direct-heap pre-state builder (a violation labelled "repr:...")
+	reprBroken := false
+	for _, res := range results {
+		for _, v := range res.Violations {
+			if strings.HasPrefix(v.Label, "repr:") {
+				reprBroken = true
+			}
+		}
+	}
+	if reprBroken {
+		fmt.Printf("BROKEN-CHECK property=%s the tracker's representation on this tree is not the one the direct-heap pre-state builder (state.vBuild) assumes: harnesses that start from such states are not evaluated\n", c.ID)
+		broken = true
+	}
 	totalPaths, totalCompleted := 0, 0
 	funcs := map[*ssa.Function]int{}
 	var samples []interface{}
@@ -286,6 +300,15 @@ func (r *Runner) Run() int {
 				}
 				fmt.Printf("  monitor/sched %6d  %s\n", n, k)
 			}
+		}
+		if reprBroken && strings.HasPrefix(res.Spec.Name, "VerifStateRepr") {
+			continue // reported above
+		}
+		if reprBroken && h.Direct && len(res.Violations) > 0 {
+			msg := fmt.Sprintf("%s: %d counterexample(s) not reported: the tracker's representation on this tree is not the one the direct-heap pre-state builder assumes (representation self-test failed)", res.Spec.Name, len(res.Violations))
+			inconclusive = append(inconclusive, msg)
+			fmt.Printf("INCONCLUSIVE property=%s %s\n", c.ID, msg)
+			continue
 		}
 		// violations: group by signature
 		bySig := map[string][]*sym.Violation{}
